@@ -698,18 +698,20 @@ class Builder:
         if c == ["bool", False]:
             return NONE
         if c[0] == "op" and c[1] == "<" and c[2] == ["n", 0]:
-            seq = self._nested(fn)
-            st = seq["steps"]
-            if len(st) == 1 and st[0][0] == "bytes" and st[0][2] == c[3] and seq["ret"] == ["ok", V(st[0][1])]:
-                # taking zero bytes always succeeds and yields the empty slice: the test only decides between None and Some
-                self.steps.append(st[0])
-                self._adv()
-                return ["nonempty", V(st[0][1])]
-            b = self.counter.fresh()
-            self.steps.append(["cond", b, c, seq])
-            self._adv()
-            return V(b)
+            return self._emit_cond(c, self._nested(fn))
         return self._wrap("cond", fn, c)
+
+    def _emit_cond(self, c, seq):
+        st = seq["steps"]
+        if c[0] == "op" and c[1] == "<" and c[2] == ["n", 0] and len(st) == 1 and st[0][0] == "bytes" and st[0][2] == c[3] and seq["ret"] == ["ok", V(st[0][1])]:
+            # taking zero bytes always succeeds and yields the empty slice: the test only decides between None and Some
+            self.steps.append(st[0])
+            self._adv()
+            return ["nonempty", V(st[0][1])]
+        b = self.counter.fresh()
+        self.steps.append(["cond", b, c, seq])
+        self._adv()
+        return V(b)
 
     def count(self, n, fn):
         return self._wrap("count", fn, n)
@@ -839,15 +841,9 @@ class Builder:
                 return {"steps": s["steps"], "ret": ["ok", r[1][2][0]]}
             return None
         if is_none(sb) and some_of(sa) is not None:
-            b = self.counter.fresh()
-            self.steps.append(["cond", b, c, some_of(sa)])
-            self._adv()
-            return V(b)
+            return self._emit_cond(c, some_of(sa))
         if is_none(sa) and some_of(sb) is not None:
-            b = self.counter.fresh()
-            self.steps.append(["cond", b, canon(["not", c]), some_of(sb)])
-            self._adv()
-            return V(b)
+            return self._emit_cond(canon(["not", c]), some_of(sb))
         # `if x == k { A } else { B }` is `match x { k => A, _ => B }` (and the negated form)
         ec = eq_consts(c)
         if ec is not None:
